@@ -530,7 +530,10 @@ namespace avel {
 
     [[nodiscard]]
     AVEL_FINL vec16x32f negate(mask16x32f m, vec16x32f v) {
-        return vec16x32f{_mm512_mask_sub_ps(decay(v), decay(m), _mm512_setzero_ps(), decay(v))};
+        // Flip the sign bit of the selected lanes (0 - v would keep the sign of zeros and NaNs)
+        auto bits = _mm512_castps_si512(decay(v));
+        auto flipped = _mm512_mask_xor_epi32(bits, decay(m), bits, _mm512_set1_epi32(0x80000000));
+        return vec16x32f{_mm512_castsi512_ps(flipped)};
     }
 
     [[nodiscard]]
